@@ -239,11 +239,20 @@ pub fn dump_forest(dom: &WeakDom, roots: &[Ref]) -> J {
             .iter()
             .map(|c| node(dom, *c, refpath))
             .collect();
-        json!({"class": inst.class.as_str(), "name": inst.name, "props": props, "children": children})
+        // built by moving the parts in: json!({.. "children": children}) would re-serialize (deep-copy) the whole
+        // subtree at every level, which is quadratic in the depth of the tree
+        let mut o = Map::new();
+        o.insert("class".into(), J::String(inst.class.as_str().to_owned()));
+        o.insert("name".into(), J::String(inst.name.clone()));
+        o.insert("props".into(), J::Object(props));
+        o.insert("children".into(), J::Array(children));
+        J::Object(o)
     }
     // iterative for very deep trees is not needed for dumps used in oracles (depth <= ~2000);
     // callers that build deeper trees use dump_forest_iter.
-    json!({"roots": roots.iter().map(|r| node(dom, *r, &refpath)).collect::<Vec<_>>()})
+    let mut top = Map::new();
+    top.insert("roots".into(), J::Array(roots.iter().map(|r| node(dom, *r, &refpath)).collect::<Vec<_>>()));
+    J::Object(top)
 }
 
 /// Dump of a decoded DOM: the children of its root.
